@@ -533,6 +533,9 @@ func (e *Engine) Stop() {
 	}
 
 	e.stopListeners()
+	// close all the connections, including the blocking mod ones
+	// that are not managed by the nbio.Engine.
+	e.closeAllConns()
 	e.Engine.Stop()
 }
 
